@@ -193,4 +193,29 @@ func init() {
 			c.guard("residue", func() { ruleResidue(c, "residue"); c.floor("residue", 5) })
 		},
 	})
+	register(&propDef{
+		ID: "C19",
+		Explanation: "closeonce: every close(ch) in package concurrent is classified by its enclosing function: if that function (or a closure ancestor, e.g. the deferred exit function of a worker) is started by a go statement inside a loop, the close must sit in a sync.Once.Do literal or be control-dependent on an atomic decrement reaching zero; a `len(ch) == n` test after a separate send is not accepted. Closers that are not loop-spawned (including a dedicated closer after WaitGroup.Wait) are single-instance and accepted. lockset: every access to the Promise mailbox (field message) happens with the promise's mutex m held on every path (must-hold lockset over the SSA CFG; unexported helpers take the intersection of their call sites' locksets; sync.Cond.Wait keeps the lock).",
+		NotDecided:  "exactly one result per operation, Map's partition arithmetic, deadlock freedom in general, that Wait eventually returns (liveness).",
+		Assumptions: []string{"sync.Mutex/Cond/Once/WaitGroup semantics", "a goroutine literal started outside any loop runs once per call of its parent"},
+		Run: func(c *Ctx) {
+			c.guard("closeonce", func() { ruleCloseOnce(c, "closeonce", "concurrent"); c.floor("closeonce", 5) })
+			c.guard("lockset", func() { rulePromiseLockset(c, "lockset"); c.floor("lockset", 4) })
+		},
+	})
+	register(&propDef{
+		ID: "C20",
+		Explanation: "appendalias: for every append whose first argument is a parameter (or receiver) slice in package feat/gene, if the result is mutated in place (sort.Sort/Stable/Slice, element store) while the parameter itself is still returned afterwards, a rejected update has already touched the caller's backing array (cap > len); building on fresh storage or on p[:len(p):len(p)] is accepted. commitlast: in NonCodingTranscript.SetExons, CodingTranscript.SetExons and Gene.SetFeatures no store to a receiver field can be followed (CFG reachability) by a return of a non-nil error.",
+		NotDecided:  "tiling of exons/introns/UTR/CDS, additive/multiplicative composition of positions and orientations, inverse of the 1-/0-based pair (value-level).",
+		Assumptions: []string{"append reuses spare capacity of its first argument"},
+		Run: func(c *Ctx) {
+			c.guard("appendalias", func() { ruleAppendAlias(c, "appendalias", "feat/gene"); c.floor("appendalias", 1) })
+			c.guard("commitlast", func() {
+				ruleCommitLast(c, "commitlast", "feat/gene", "(*NonCodingTranscript).SetExons")
+				ruleCommitLast(c, "commitlast", "feat/gene", "(*CodingTranscript).SetExons")
+				ruleCommitLast(c, "commitlast", "feat/gene", "(*Gene).SetFeatures")
+				c.floor("commitlast", 4)
+			})
+		},
+	})
 }
